@@ -16,6 +16,7 @@ import (
 	"verifharness/fw"
 	"verifharness/lab"
 
+	beacontypes "github.com/unification-com/mainchain/x/beacon/types"
 	enttypes "github.com/unification-com/mainchain/x/enterprise/types"
 	streamtypes "github.com/unification-com/mainchain/x/stream/types"
 	wrkchaintypes "github.com/unification-com/mainchain/x/wrkchain/types"
@@ -174,6 +175,9 @@ func runC14(c *fw.Ctx) {
 	w.Ent, w.Reg, w.Stream, w.Bank, w.Staking = 40, 25, 15, 15, 5
 	w.GovPct, w.LowGasPct, w.BadSeqPct, w.NestedPct = 0, 6, 6, 12
 	nb := r.Range(40, 60)
+	if r.Chance(25) {
+		c14GhostRegistration(c, e, g)
+	}
 	if r.Chance(30) {
 		// an enterprise parameter change (mostly of the denomination) that executes in the very block
 		// in which the chain's first order sits in the accepted queue: decisions are delivered in the
@@ -391,3 +395,53 @@ func failingGovMsg(e *Env) sdk.Msg {
 type big2 = big.Int
 
 var bigOne = big.NewInt(1)
+
+// c14GhostRegistration: a transaction that registers a WRKChain and a BEACON, uses the identifiers
+// it was just handed (record, purchase) and then fails leaves nothing behind - the identifiers go to
+// whoever registers next, and the account of the failed transaction is a stranger to them. Played
+// out step by step so that the registry reference model (owner rules) sees the follow-up: the
+// stranger's record / purchase must be refused, the new owner's accepted.
+func c14GhostRegistration(c *fw.Ctx, e *Env, g *Gen) {
+	e.Block(time.Second)
+	if e.Halted != "" || e.Last == nil || len(e.L.Accts) < 4 {
+		return
+	}
+	r := e.R
+	x, y := e.L.Accts[2], e.L.Accts[3]
+	obs := e.Last
+	nw, nb := obs.NextWrk, obs.NextBeacon
+	wfee := func(n uint64) sdk.Coins {
+		return sdk.NewCoins(sdk.NewCoin(obs.WrkParams.Denom, math.NewIntFromUint64(n)))
+	}
+	bfee := func(n uint64) sdk.Coins {
+		return sdk.NewCoins(sdk.NewCoin(obs.BeaconParams.Denom, math.NewIntFromUint64(n)))
+	}
+	failing := banktypes.NewMsgSend(x.Addr, y.Addr, sdk.NewCoins(sdk.NewCoin(lab.Denom, math.NewIntWithDecimal(1, 40))))
+	// 1. the ghost: register + use the fresh id + a message that fails (one tx per module: the fee
+	//    decorators of this tree price each module's operations separately)
+	e.Block(time.Second,
+		g.plan(x, wfee(obs.WrkParams.FeeRegister+obs.WrkParams.FeeRecord), g.WrkRegisterMsg(x), &wrkchaintypes.MsgRecordWrkChainBlock{WrkchainId: nw, Height: 5, BlockHash: g.hash(32), Owner: x.Addr.String()}, failing),
+		g.plan(x, bfee(obs.BeaconParams.FeeRegister+obs.BeaconParams.FeeRecord), g.BeaconRegisterMsg(x), &beacontypes.MsgRecordBeaconTimestamp{BeaconId: nb, Hash: g.hash(32), SubmitTime: 77, Owner: x.Addr.String()}, failing))
+	if e.Halted != "" || e.Last.NextWrk != nw || e.Last.NextBeacon != nb {
+		return // (the registry monitor reports an id that was consumed by a failed transaction)
+	}
+	// 2. the real registrations take the identifiers
+	e.Block(time.Second, g.plan(y, wfee(obs.WrkParams.FeeRegister), g.WrkRegisterMsg(y)), g.plan(y, bfee(obs.BeaconParams.FeeRegister), g.BeaconRegisterMsg(y)))
+	// 3. the stranger and the owner both try; the order varies
+	xs := []*TxPlan{
+		g.plan(x, wfee(obs.WrkParams.FeeRecord), &wrkchaintypes.MsgRecordWrkChainBlock{WrkchainId: nw, Height: 7, BlockHash: g.hash(32), Owner: x.Addr.String()}),
+		g.plan(x, wfee(obs.WrkParams.FeePurchaseStorage), &wrkchaintypes.MsgPurchaseWrkChainStateStorage{WrkchainId: nw, Number: 1, Owner: x.Addr.String()}),
+		g.plan(x, bfee(obs.BeaconParams.FeeRecord), &beacontypes.MsgRecordBeaconTimestamp{BeaconId: nb, Hash: g.hash(32), SubmitTime: 78, Owner: x.Addr.String()}),
+		g.plan(x, bfee(obs.BeaconParams.FeePurchaseStorage), &beacontypes.MsgPurchaseBeaconStateStorage{BeaconId: nb, Number: 1, Owner: x.Addr.String()}),
+	}
+	ys := []*TxPlan{
+		g.plan(y, wfee(obs.WrkParams.FeeRecord), &wrkchaintypes.MsgRecordWrkChainBlock{WrkchainId: nw, Height: 9, BlockHash: g.hash(32), Owner: y.Addr.String()}),
+		g.plan(y, bfee(obs.BeaconParams.FeeRecord), &beacontypes.MsgRecordBeaconTimestamp{BeaconId: nb, Hash: g.hash(32), SubmitTime: 79, Owner: y.Addr.String()}),
+	}
+	if r.Bool() {
+		e.Block(time.Second, append(xs, ys...)...)
+	} else {
+		e.Block(time.Second, append(ys, xs...)...)
+	}
+	c.Count("ghost_registration_probes", 1)
+}
